@@ -33,9 +33,9 @@ func (c c11Cfg) String() string {
 var c11States = []string{"down", "badsig{r}", "parsefail{r}", "critext{r}", "good{a}", "good{}"}
 
 type c11Cast struct {
-	p        *world.PKI
-	r, a, n  *world.Ident // serials 201 (only in rejected lists), 202 (in good{a}), 203 (never listed)
-	docs     map[string][]byte
+	p       *world.PKI
+	r, a, n *world.Ident // serials 201 (only in rejected lists), 202 (in good{a}), 203 (never listed)
+	docs    map[string][]byte
 }
 
 func newC11Cast() *c11Cast {
@@ -397,10 +397,10 @@ func RunC11(tier string, args []string) int {
 		"history_transitions":           total.Stats.Transitions,
 		"neighbourhood_probes":          ev,
 		"neighbourhood_probes_expected_not_revoked": nt,
-		"max_depth":                     total.Stats.MaxDepth,
-		"event_alphabet":                c11Events,
-		"samples":                       append([]string{"set(badsig{r}) ; probe-all ; set(good{a}) ; probe-all", "set(good{a}) ; probe-all ; set(good{}) ; tick ; probe-all"}, samples...),
-		"exhaustive":                    !total.Stats.Capped,
+		"max_depth":      total.Stats.MaxDepth,
+		"event_alphabet": c11Events,
+		"samples":        append([]string{"set(badsig{r}) ; probe-all ; set(good{a}) ; probe-all", "set(good{a}) ; probe-all ; set(good{}) ; tick ; probe-all"}, samples...),
+		"exhaustive":     !total.Stats.Capped,
 	}
 	return chk.Finish(cov)
 }
